@@ -76,6 +76,9 @@ def cases(tier, seed):
     for fc in ('1', '-1'):
         out.append({'k': 'seq', 'prog': 'near_limit', 'kind': 'span_method', 'at': 'probe', 'fc': fc})
         out.append({'k': 'seq', 'prog': 'near_limit', 'kind': 'span_pair', 'at': 'probe', 'fc': fc})
+        # the function that carries the tracepoints is itself called with 3..40 frames left below the limit
+        for kind in ('span_method', 'span_pair', 'span_and_snapshot', 'span_and_capture', 'capture_method'):
+            out.append({'k': 'seq', 'prog': 'deep_call', 'kind': kind, 'at': 'leaf', 'fc': fc})
     # the agent is shut down while an invocation with deferred work is in progress: that work is still completed when the invocation ends
     for kind in ('span_method', 'capture_method', 'span_and_capture', 'span_line'):
         out.append({'k': 'shutdown-pending', 'kind': kind})
@@ -130,6 +133,11 @@ def triggers_for(prog, kind, at, fc, at2=None):
         return [make_trigger(prog, 'span_line', at, fc, 'tp-a'), make_trigger(prog, 'span_line', at, fc, 'tp-b')]
     if kind == 'span_and_capture':
         return [make_trigger(prog, 'span_method', at, fc, 'tp-a'), make_trigger(prog, 'capture_method', at, fc, 'tp-b'), make_trigger(prog, 'span_method', at, fc, 'tp-c')]
+    if kind == 'span_and_snapshot':
+        # a method span and, on the same function, a plain snapshot tracepoint that collects all frames (work that needs stack)
+        from deep.api.tracepoint.trigger import build_trigger
+        return [make_trigger(prog, 'span_method', at, fc, 'tp-a'),
+                build_trigger('tp-s', prog + '.py', 0, {'fire_count': fc, 'fire_period': '0', 'method_name': at, 'frame_type': 'all_frame'}, ['i + 1'], [])]
     if kind == 'span_method_and_line':
         return [make_trigger(prog, 'span_method', at[0], fc, 'tp-a'), make_trigger(prog, 'span_line', at[1], fc, 'tp-b')]
     if kind == 'span_two_lines':
@@ -282,9 +290,15 @@ def near_limit(ctx, desc):
     ctx.nt(('near-limit', kind, at, fc))
     counts = [s_.closed for s_ in sp.spans]
     ctx.outcome(('near-limit', kind, at, len(counts), sum(counts)))
-    label = f'near_limit {kind}@{at} fire_count={fc}'
-    if run.exc is not None or run.result != ['fits', 'fits', 'fits']:
+    label = f'{prog} {kind}@{at} fire_count={fc}'
+    want = ['fits', 'fits', 'fits'] if prog == 'near_limit' else list(range(4, 42))
+    if run.exc is not None or run.result != want:
         ctx.violation('C15/near-limit/program-disturbed', f'{label}: result {run.result} exc {run.exc!r}', desc)
+    elif kind == 'capture_method':
+        # no span: every deferred snapshot that was opened is delivered once, nothing stays pending
+        got = len(agent.snapshots)
+        if store:
+            ctx.violation(f'C15/near-limit/left-in-store/{kind}', f'{label}: pending store holds {store} afterwards ({got} snapshots delivered)', desc)
     elif not counts:
         ctx.violation('C15/near-limit/no-span-opened', f'{label}: no span was opened', desc)
     elif any(c != 1 for c in counts):
@@ -295,7 +309,7 @@ def near_limit(ctx, desc):
 
 
 def seq(ctx, desc):
-    if desc['prog'] == 'near_limit':
+    if desc['prog'] in ('near_limit', 'deep_call'):
         return near_limit(ctx, desc)
     prog, kind, at, fc = desc['prog'], desc['kind'], desc['at'], desc['fc']
     trig = triggers_for(prog, kind, at, fc, desc.get('at2'))
